@@ -13,7 +13,7 @@ RULE = ('one case = one real audit of a scripted peer whose KEXINIT (or SSH-1 pu
         'verbose and JSON renderings; SSH-1 cipher/authentication masks; probes answered or refused.  Oracle: per category the reported name sequence equals the advertised non-empty '
         'names (UTF-8 decoded with replacement), banner and compression equal what was sent.  A case is non-trivial when the audit completed and at least one category list was compared; '
         'distinct = distinct (KEXINIT, role, rendering) specifications')
-REQUIRED = {'audits_completed': 50, 'names_compared': 500, 'client_role': 5, 'json_runs': 10, 'ssh1_runs': 5, 'special_names': 20}
+REQUIRED = {'client_text_vs_json_direction_checks': 2, 'audits_completed': 50, 'names_compared': 500, 'client_role': 5, 'json_runs': 10, 'ssh1_runs': 5, 'special_names': 20}
 ASSUMPTIONS = ['verbose rendering repeats the name on every note line, so consecutive identical names are compared after merging (multiplicity is checked exactly in plain, batch and JSON renderings)',
                'client role with asymmetric direction lists: the report must equal one of the two directions (the statement does not say which)',
                'names containing space, comma or control characters are outside the quantifier (RFC 4251 forbids them)']
@@ -251,6 +251,24 @@ def run_client(c):
     counters['audits_completed'] = 1
     counters['client_role'] = 1
     compare_report(c, r, k, banner, viol, counters, client=True, alt=alt)
+    if alt is not None and c['render'] in ('plain', 'json'):
+        # with lists that differ per direction either direction is a defensible reading of "the names the peer advertised" - but the text and the JSON report of the same client must show the same one
+        other = 'json' if c['render'] == 'plain' else 'plain'
+        r2, p2 = audit.audit_client(script, RENDER[other])
+        if p2.count('connected') and r2.status in (0, 2, 3):
+            def names(rr, render):
+                if render == 'json':
+                    try:
+                        doc = json.loads(rr.out)
+                    except ValueError:
+                        return None
+                    return {cat: [x for x in (report.json_names(doc, cat) or []) if x.strip()] for cat in ('enc', 'mac')}
+                rep = report.parse_text(rr.out)
+                return {cat: rep.names(cat) for cat in ('enc', 'mac')}
+            a, b = names(r, c['render']), names(r2, other)
+            counters['client_text_vs_json_direction_checks'] = 1
+            if a is not None and b is not None and a != b:
+                viol.append(_v('C01/client-renderings-show-different-directions', 'the text and the JSON report of the same client list different cipher/MAC names', text=a if c['render'] == 'plain' else b, json=b if c['render'] == 'plain' else a))
     return viol, counters
 
 
